@@ -252,10 +252,16 @@ func c11Check(c *Ctx, lists []c11List, sig map[string]any, replay map[string]any
 						return
 					}
 				}
-				// engines over this backing
+				// engines over this backing, each built on a storage nobody has read
+				// from yet (a warm rule cache would hide what the engines' own scans
+				// do to the backing store)
 				var sb strings.Builder
-				ne := urlfilter.NewNetworkEngine(st2)
-				de := urlfilter.NewDNSEngine(st2)
+				st3, cleanup3 := c11Storage(lists, file)
+				defer cleanup3()
+				st4, cleanup4 := c11Storage(lists, file)
+				defer cleanup4()
+				ne := urlfilter.NewNetworkEngine(st3)
+				de := urlfilter.NewDNSEngine(st4)
 				for _, u := range c11Requests {
 					sb.WriteString(fmt.Sprint(sortedSet(netTexts(ne.MatchAll(rules.NewRequest(u, "", rules.TypeDocument))))))
 					res, ok := de.Match(strings.TrimSuffix(strings.TrimPrefix(u, "http://"), "/"))
